@@ -14,28 +14,52 @@ open LyModel LyModel.Lyb LyModel.Tree LyModel.LybTree LyModel.Generated
 print the same bytes; the node flags, `LYD_DEFAULT` among them, are always written) -/
 def Untagged (o : POpts) : Prop := o.tagAll = false ∧ o.tagImpl = false
 
-/-- **LYB tree round trip.**  For every chunk-size parameter set `P` (side conditions `P.Ok`, satisfied by the constants
-of lyb.h: `params_gen_ok`), every schema view `S` (any sibling sets, any names — the hash collisions are whatever the real
-`lyb_generate_hash` gives), every forest `t` whose nodes fit the schema (`WfForest`: leaf / leaf-list nodes carry the
-canonical form of a value of their type — any of the `Val` types or `empty` —, inner nodes are containers or list
-instances, keyed or key-less, in any number and order) and every untagged with-defaults mode:
-**if the printer succeeds** (`printLyb … = some img`: `lyb_hash_siblings` resolves every sibling set that occurs — the
-decidable condition of `lyb_hash_lookup_correct`, finding F27 is its failure — and no inner-chunk counter overflows),
-the parser run on the image returns exactly `t`: same nodes, order, canonical values, flags.
-`fuel` bounds the parser's recursion (`costL t`: number of nodes + nesting); the driver uses `8·|img| + 16`. -/
-theorem lyb_tree_roundtrip (P : Params) (hP : P.Ok) (o : POpts) (ho : Untagged o) (S : LSchema)
+/-- the revision word of `ietf-netconf-with-defaults` (when the context has the module) survives the 7-bit year packing -/
+def WdRevOk (S : LSchema) : Prop := ∀ w, S.wd = some w → unpackRev (packRev w) = w
+
+/-- **LYB tree round trip, every with-defaults mode, the code as it is** (the true part of the full statement, which
+`lyb_tree_roundtrip_tagged_fails` refutes).  For every chunk-size parameter set `P` (side conditions `P.Ok`), every schema
+view `S` (any sibling sets, any names — the hash collisions are whatever the real `lyb_generate_hash` gives), every forest
+`t` whose nodes fit the schema (`WfForest`: leaf / leaf-list nodes carry the canonical form of a value of their type — any
+of the `Val` types or `empty` —, inner nodes are containers or list instances, keyed or key-less, in any number and order)
+and EVERY print option: **if the printer succeeds** (`printLyb … = some img`: `lyb_hash_siblings` resolves every sibling
+set that occurs — finding F27 is its failure — and no inner-chunk counter overflows), the parser run on the image returns
+`t` with the same nodes, order, canonical values and flags, where exactly the nodes the printer tagged (`wdTagged`:
+`LYD_DEFAULT` under ALL_TAG / IMPL_TAG, or a default-valued term node under ALL_TAG) carry the
+`ietf-netconf-with-defaults:default` annotation as a metadata instance (`viewNode`). -/
+theorem lyb_tree_roundtrip_tagged_partial (P : Params) (hP : P.Ok) (o : POpts) (S : LSchema) (hwd : WdRevOk S)
     (hname : S.modName ≠ []) (hrev : unpackRev (packRev S.rev) = S.rev)
     (t : List DNode) (hwf : WfForest S t) (img : Bytes) (hp : printLyb P o S t = some img)
     (fuel : Nat) (hf : costL t + 1 ≤ fuel) :
-    parseLybF P S fuel img = some t :=
-  doc_rt P hP o ho S hname hrev t hwf img hp fuel hf
+    parseLybF P S fuel img = some (t.map (viewNode o S)) :=
+  doc_rt P hP o S hwd hname hrev t hwf img hp fuel hf
+
+/-- **LYB tree round trip** (untagged modes: explicit / trim / all): `parse (print t) = t`. -/
+theorem lyb_tree_roundtrip (P : Params) (hP : P.Ok) (o : POpts) (ho : Untagged o) (S : LSchema) (hwd : WdRevOk S)
+    (hname : S.modName ≠ []) (hrev : unpackRev (packRev S.rev) = S.rev)
+    (t : List DNode) (hwf : WfForest S t) (img : Bytes) (hp : printLyb P o S t = some img)
+    (fuel : Nat) (hf : costL t + 1 ≤ fuel) :
+    parseLybF P S fuel img = some t := by
+  have := lyb_tree_roundtrip_tagged_partial P hP o S hwd hname hrev t hwf img hp fuel hf
+  rwa [viewL_id o S (fun n => untagged o S n (Or.inl ho))] at this
+
+/-- **… with the repair of finding F330** (`fixes/F330.diff`: `lyb_print_metadata` without the with-defaults block — the
+extractor then sets `lybWdAnnot = false`, the default of `POpts.wdAnnot`): `parse (print t) = t` under EVERY
+with-defaults mode, the tagged ones included: the flags carry the default-ness exactly. -/
+theorem lyb_tree_roundtrip_tagged_fixed (P : Params) (hP : P.Ok) (o : POpts) (hfix : o.wdAnnot = false) (S : LSchema)
+    (hwd : WdRevOk S) (hname : S.modName ≠ []) (hrev : unpackRev (packRev S.rev) = S.rev)
+    (t : List DNode) (hwf : WfForest S t) (img : Bytes) (hp : printLyb P o S t = some img)
+    (fuel : Nat) (hf : costL t + 1 ≤ fuel) :
+    parseLybF P S fuel img = some t := by
+  have := lyb_tree_roundtrip_tagged_partial P hP o S hwd hname hrev t hwf img hp fuel hf
+  rwa [viewL_id o S (fun n => untagged o S n (Or.inr hfix))] at this
 
 /-- the same at the constants of the source tree -/
-theorem lyb_tree_roundtrip_gen (o : POpts) (ho : Untagged o) (S : LSchema) (hname : S.modName ≠ [])
+theorem lyb_tree_roundtrip_gen (o : POpts) (ho : Untagged o) (S : LSchema) (hwd : WdRevOk S) (hname : S.modName ≠ [])
     (hrev : unpackRev (packRev S.rev) = S.rev) (t : List DNode) (hwf : WfForest S t) (img : Bytes)
     (hp : printLyb Params.gen o S t = some img) (fuel : Nat) (hf : costL t + 1 ≤ fuel) :
     parseLybF Params.gen S fuel img = some t :=
-  lyb_tree_roundtrip Params.gen C01Lyb.params_gen_ok o ho S hname hrev t hwf img hp fuel hf
+  lyb_tree_roundtrip Params.gen C01Lyb.params_gen_ok o ho S hwd hname hrev t hwf img hp fuel hf
 
 /-- the revision hypothesis holds for a module without revision and (by `lyb_revision_pack_roundtrip`) for every date
 2000-01-01 … 2127-12-31; outside that range the format cannot hold the year (finding F70) -/
@@ -93,7 +117,7 @@ the parse of the image -/
 theorem exPrint : printLyb Params.gen {} exS exT = some exImg := by decide
 
 example : parseLybF Params.gen exS 40 exImg = some exT :=
-  lyb_tree_roundtrip_gen {} ⟨rfl, rfl⟩ exS (by decide) (by decide) exT
+  lyb_tree_roundtrip_gen {} ⟨rfl, rfl⟩ exS (by intro w h; cases h) (by decide) (by decide) exT
     (by
       refine ⟨⟨rfl, rfl, ⟨rfl, trivial, .bool true, rfl, rfl⟩, ⟨rfl, ⟨by simp [Val.Ty.WF, Val.PartsWF], .num 7, rfl, rfl⟩⟩,
         ⟨rfl, ⟨by simp [Val.Ty.WF, Val.PartsWF], .num 255, rfl, rfl⟩⟩, trivial⟩, ⟨rfl, rfl⟩, trivial⟩)
@@ -134,7 +158,7 @@ theorem lyb_tree_roundtrip_tagged_fails :
     ¬ ∀ (o : POpts) (S : LSchema) (t : List DNode) (img : Bytes), printLyb Params.gen o S t = some img →
         (match parseLybF Params.gen S 40 img with | some t' => beqL t' t | none => false) = true := by
   intro H
-  have := H { tagImpl := true } exSwd exT ((printLyb Params.gen { tagImpl := true } exSwd exT).getD []) (by decide)
+  have := H { tagImpl := true, wdAnnot := true } exSwd exT ((printLyb Params.gen { tagImpl := true, wdAnnot := true } exSwd exT).getD []) (by decide)
   revert this
   decide
 
